@@ -60,11 +60,20 @@ type PoolWorld struct {
 	YieldPoints bool
 }
 
-// DepositStore adds per-account on-chain deposits to balances exactly like payment.contractPayment.
+// DepositStore is the pool's BalanceStore as wired in production: the real payment.contractPayment
+// proxy (its GetNodeBalance / GetAccountBalance / balance cache) over the account store, with the
+// chain replaced by the Deposits map. A changed entry of Deposits reaches the proxy's cache the way
+// the contract's Balance event does, before the next read. Values are produced like go-ethereum's
+// ABI decoder produces them (SetBytes of a 32-byte word, i.e. with spare capacity), and - as in the
+// real proxy - a Balance handed out shares its deposit digits with the cached value.
 type DepositStore struct {
 	store.AccountStore
 	Deposits map[store.Account]*big.Int
 	W        *PoolWorld
+
+	cp   store.BalanceStore
+	emit func(store.Account, *big.Int)
+	seen map[store.Account]string
 }
 
 func (d *DepositStore) point(what string) {
@@ -73,48 +82,74 @@ func (d *DepositStore) point(what string) {
 	}
 }
 
+var depositMu sync.Mutex // the free-running -race pass calls the world from several goroutines
+
+// chainWord returns v the way the ABI decoder would.
+func chainWord(v *big.Int) *big.Int {
+	if v == nil || v.Sign() < 0 {
+		return new(big.Int).Set(v)
+	}
+	var word [32]byte
+	v.FillBytes(word[:])
+	return new(big.Int).SetBytes(word[:])
+}
+
+func (d *DepositStore) init() {
+	if d.cp != nil {
+		return
+	}
+	d.seen = map[store.Account]string{}
+	d.cp, d.emit = payment.VerifContractPayment(d.AccountStore, func(a store.Account) (*big.Int, error) {
+		if !vsched.Active() {
+			depositMu.Lock()
+			defer depositMu.Unlock()
+		}
+		if v, ok := d.Deposits[a]; ok {
+			return chainWord(v), nil
+		}
+		return chainWord(new(big.Int)), nil
+	})
+}
+
+// sync delivers a Balance event for every account whose on-chain deposit changed.
+func (d *DepositStore) sync() {
+	// (under the controlled scheduler one thread runs at a time, and the cache's own mutex below is
+	// a scheduling point: no native lock may be held across it)
+	if !vsched.Active() {
+		depositMu.Lock()
+		defer depositMu.Unlock()
+	}
+	d.init()
+	for a, v := range d.Deposits {
+		if s := v.String(); d.seen[a] != s {
+			d.seen[a] = s
+			d.emit(a, chainWord(v))
+		}
+	}
+}
+
 func (d *DepositStore) AddAccountBalance(a store.Account, c *big.Int) error {
 	d.point("AddAccountBalance")
-	return d.AccountStore.AddAccountBalance(a, c)
+	d.sync()
+	return d.cp.AddAccountBalance(a, c)
 }
 
 func (d *DepositStore) AddNodeBalance(id store.NodeID, c *big.Int) error {
 	d.point("AddNodeBalance")
-	return d.AccountStore.AddNodeBalance(id, c)
-}
-
-var depositMu sync.Mutex // the free-running -race pass calls the world from several goroutines
-
-func (d *DepositStore) deposit(a store.Account) *big.Int {
-	depositMu.Lock()
-	defer depositMu.Unlock()
-	if v, ok := d.Deposits[a]; ok {
-		return new(big.Int).Set(v)
-	}
-	return new(big.Int)
+	d.sync()
+	return d.cp.AddNodeBalance(id, c)
 }
 
 func (d *DepositStore) GetNodeBalance(nodeID store.NodeID) (store.Balance, error) {
 	d.point("GetNodeBalance")
-	b, err := d.AccountStore.GetNodeBalance(nodeID)
-	if err != nil {
-		return b, err
-	}
-	if len(b.Account) == 0 {
-		return b, nil
-	}
-	b.Deposit = *d.deposit(b.Account)
-	return b, nil
+	d.sync()
+	return d.cp.GetNodeBalance(nodeID)
 }
 
 func (d *DepositStore) GetAccountBalance(a store.Account) (store.Balance, error) {
 	d.point("GetAccountBalance")
-	b, err := d.AccountStore.GetAccountBalance(a)
-	if err != nil {
-		return b, err
-	}
-	b.Deposit = *d.deposit(a)
-	return b, nil
+	d.sync()
+	return d.cp.GetAccountBalance(a)
 }
 
 // NewPoolWorld builds the world.
